@@ -411,13 +411,21 @@ async fn run(input: RunInput, mode: Mode) -> RunOutput {
             // the application's handler at n{j} panics on a request. anemo propagates such a panic
             // up to the connection manager: the node goes down, closing its connections - from then
             // on it is as dead as after a silent death, only that everybody is told at once
+            let before = crate::runner::deliberate_panics();
             let _ = tokio::time::timeout(Duration::from_secs(5), slots[i].node.net.rpc(ids[j], Request::new(Bytes::from_static(b"poison")).with_header("x-panic", "1"))).await;
-            silent_death = Some((w.now_ns(), j));
-            panicked = Some(j);
-            crashed = true;
-            interesting = true;
-            w.probe("application-handler-panicked");
-            desc = format!("handler-panic n{j}");
+            // (the request may never have reached the handler: a connection that n{i} still
+            // listed can be a dead one - sweep seed 1003: the peer had crashed and restarted, the
+            // stale connection timed out in the very millisecond of the call)
+            if crate::runner::deliberate_panics() > before {
+                silent_death = Some((w.now_ns(), j));
+                panicked = Some(j);
+                crashed = true;
+                interesting = true;
+                w.probe("application-handler-panicked");
+                desc = format!("handler-panic n{j}");
+            } else {
+                desc = format!("handler-panic n{j}:request-not-delivered");
+            }
         } else if kind < 63 {
             // restart with the same identity and address; half of them after a *crash*: the node is
             // cut off from everybody first, so no peer hears a close, and the new incarnation
